@@ -214,9 +214,9 @@ def build_tasks(run, quick):
     import c04_exprs as cx
     ncfg = cx.NCFG_BASE
     sk_info = {}
-    sk = list(progen.skeleton_programs(4 if quick else 5, 3, cap=(120 if quick else 2000),
+    sk = list(progen.skeleton_programs(4 if quick else 5, 3, cap=(120 if quick else 1200),
                                        rng=random.Random(run.rng.getrandbits(32)), info=sk_info))
-    rnd = list(progen.random_programs(random.Random(run.rng.getrandbits(32)), 80 if quick else 800, size=12))
+    rnd = list(progen.random_programs(random.Random(run.rng.getrandbits(32)), 60 if quick else 500, size=12))
     ctx = cx.context_programs() + cx.lambda_programs()
     off = run.rng.randrange(ncfg)
     tasks = []
@@ -465,7 +465,7 @@ def check(run, only_corpus=None):
     # ---- obligations
     for op in ('functions', 'directives', 'calltrees', 'ifexp', 'logical', 'variables', 'slices'):
         d = dis_by_op.get(op, [])
-        run.oblige('correspondence:pass:' + op, 'correspondence', not d and npass.get(op, 0) > 0,
+        run.oblige('correspondence:pass:' + op, 'correspondence', not d and (npass.get(op, 0) > 0 or only_corpus is not None),
                    json.dumps(d[:2]) if d else ('%d pass inputs' % npass.get(op, 0)))
     run.oblige('assumption:no-skip-processing', 'correspondence', skip_seen == 0, 'SKIP_PROCESSING seen on %d nodes' % skip_seen)
     run.oblige('checker:noNative-on-real-output', 'checker', not off_cases,
